@@ -77,15 +77,17 @@ func qexec(p qparams, ctl *explore.Ctl) explore.Result {
 		{Name: proto.String("free"), Password: proto.String("pw-f")},
 		{Name: proto.String("big"), Password: proto.String("pw-b"), Quotas: []*appctlpb.Quota{{Days: proto.Int32(30), Megabytes: proto.Int32(100000)}}},
 		{Name: proto.String("double"), Password: proto.String("pw-d"), Quotas: []*appctlpb.Quota{{Days: proto.Int32(1), Megabytes: proto.Int32(2)}, {Days: proto.Int32(30), Megabytes: proto.Int32(2)}}},
+		// "for ever": windows far longer than anything the counters remember (validation only asks for days > 0)
+		{Name: proto.String("lifetime"), Password: proto.String("pw-t"), Quotas: []*appctlpb.Quota{{Days: proto.Int32(200000), Megabytes: proto.Int32(5)}, {Days: proto.Int32(2147483647), Megabytes: proto.Int32(5)}, {Days: proto.Int32(106752), Megabytes: proto.Int32(5)}}},
 	}
 	cfg := world.Config{UDP: p.UDP, MTU: 1400, Users: users, Seed: p.Seed, Horizon: 120 * time.Second, NoClient: true, NoWait: p.NoWait}
 	if p.Ds > 0 && thoroughTier {
 		cfg.Stalls = []time.Duration{5 * time.Millisecond, 1500 * time.Millisecond}
 	}
 	// bytes the server application read / wrote, per user (the tag encodes the user)
-	var appRead, appWrote [4]int64
+	var appRead, appWrote [5]int64
 	refusedRead := int64(0)
-	probe := [4]string{}
+	probe := [5]string{}
 	total := p.Up + p.Down
 	ex := world.Run(cfg, ctl, func(w *world.World) {
 		w.Go("srv-accept", "server", func() {
@@ -107,7 +109,7 @@ func qexec(p qparams, ctl *explore.Ctl) explore.Result {
 					continue
 				}
 				ui := (tag / 100) % 10
-				if ui > 3 {
+				if ui > 4 {
 					ui = 0
 				}
 				// Accept has read the 10-byte request from the session on behalf of the application
@@ -160,7 +162,7 @@ func qexec(p qparams, ctl *explore.Ctl) explore.Result {
 				})
 			}
 		})
-		clis := make([]client.Client, 4)
+		clis := make([]client.Client, 5)
 		for i, u := range users {
 			c, err := w.NewClient(&appctlpb.User{Name: u.Name, Password: u.Password}, net.IPv4(10, 9, 0, byte(1+i)))
 			if err != nil {
@@ -273,6 +275,9 @@ func qexec(p qparams, ctl *explore.Ctl) explore.Result {
 		if !served(1) || !served(2) {
 			v.Add("quota/innocent-user-refused", "users within their allowance were refused: free=%q big=%q", probe[1], probe[2])
 		}
+		if !served(4) {
+			v.Add("quota/user-within-allowance-refused", "the user whose quota windows are 200000, 2147483647 and 106752 days (allowance 5 MB, no traffic) was not served: %s", probe[4])
+		}
 		if !served(3) && p.Double/mib <= 2 {
 			v.Add("quota/user-within-allowance-refused", "the user with two quota entries (2 MB / 1 day, 2 MB / 30 days) moved %d bytes, which is inside each allowance, and its new session was refused: %s", p.Double, probe[3])
 		}
@@ -297,7 +302,7 @@ func qexec(p qparams, ctl *explore.Ctl) explore.Result {
 			}
 		}
 	}
-	out := fmt.Sprintf("limited=%s/free=%s/big=%s/double=%s", short(probe[0]), short(probe[1]), short(probe[2]), short(probe[3]))
+	out := fmt.Sprintf("limited=%s/free=%s/big=%s/double=%s/lifetime=%s", short(probe[0]), short(probe[1]), short(probe[2]), short(probe[3]), short(probe[4]))
 	if len(v.Viol) > 0 {
 		out = v.Viol[0].Signature
 	}
